@@ -402,7 +402,10 @@ def servedStr : Out → String
 
 def handlePolnetWith (F : Facts) (toks : List String) : String :=
   match toks with
-  | ["cut", carrier] =>
+  | [loss, carrier] =>
+    -- "cut": the carrier is cut; "sessclose": the stored session has closed itself (keep-alive); either way the stored
+    -- session fails Connect's liveness test or its OpenStream, is replaced once, and the replacement is reused
+    if loss ≠ "cut" ∧ loss ≠ "sessclose" then "bad-op" else
     match secureCarrier carrier with
     | some sec =>
       let c := Cfg.simple sec .absent [if sec then .okSecure else .okPlain]
